@@ -855,10 +855,18 @@ def i_CMPXCHG(i, fmap):
     dst, src = i.operands
     acc = {8: al, 16: ax, 32: eax}[dst.size]
     t = fmap(acc == dst)
-    fmap[zf] = tst(t, bit1, bit0)
     v = fmap(dst)
+    a = fmap(acc)
+    # flags are those of CMP acc, dst:
+    x, carry, overflow = SubWithBorrow(a, v)
+    fmap[af] = halfborrow(a, v)
+    fmap[pf] = parity8(x[0:8])
+    fmap[zf] = x == 0
+    fmap[sf] = x.bit(-1)
+    fmap[cf] = carry
+    fmap[of] = overflow
     fmap[dst] = tst(t, fmap(src), v)
-    fmap[acc] = v
+    fmap[acc] = tst(t, a, v)
 
 
 def i_CMPXCHG8B(i, fmap):
